@@ -2,5 +2,5 @@ package sim
 
 // OraclesFor returns every oracle; all run in every profile.
 func OraclesFor(c *Chain) []Oracle {
-	return []Oracle{}
+	return []Oracle{NewOracleC03(), NewOracleC04(), NewOracleC05(), NewOracleC06()}
 }
